@@ -123,8 +123,9 @@ def run(ctx):
         return {"trace": os.path.basename(path), "events": out}
 
     pick = sorted(traces, key=lambda t: (0 if "koalabear_default" in t else 1, os.path.getsize(t)))
-    ctx.samples = [s for s in (sample(pick[0], "FFT", 2), sample(pick[0], "ReadFrom", 2), sample(pick[0], "NewDomain", 1),
-                               sample(traces[0], "FFTInverse", 1)) if s["events"]]
+    ctx.samples = [] if not traces else \
+        [s for s in (sample(pick[0], "FFT", 2), sample(pick[0], "ReadFrom", 2), sample(pick[0], "NewDomain", 1),
+                     sample(traces[0], "FFTInverse", 1)) if s["events"]]     # (no trace survives when every configuration crashed)
     ctx.extra["configs"] = sorted({c[0] for c in _configs(ctx.tier)}) + (["race"] if thorough else [])
     ctx.extra["events_by_op"] = counts
     ctx.extra["trace_bytes"] = nbytes
